@@ -3,13 +3,18 @@
 C12 - df_fillna / nona fill or drop exactly the missing cells, arrays and pandas alike.
 
 Spec format (plain JSON):
-    cols    : 1-3 columns of equal length; a cell is None (= NaN), a finite float, or 'inf' / '-inf'
+    cols    : 1-3 columns of equal length; a column is a list of cells - None (= NaN), a finite float, 'inf' / '-inf' - or, for long
+              inputs, {'rle': [[length, None | start], ...]}: a NaN run, or a run of the values start, start+1, ...
     dim     : 1 -> the vector cols[0];  2 -> the frame with len(cols) columns
     methods : list of 'ffill' | 'bfill' | 'nona' | 'fnna' | 'ffill_na' | 'ffill_0' | number
     bare    : pass a one-element list as the bare method (and [] as None)
-    limit   : None | 1 | 2 | 3
+    limit   : None | positive int
     kinds   : which objects the case is run on: 'arr' numpy array, 'range' Series/DataFrame with the default RangeIndex,
-              'dt' Series/DataFrame with a daily DatetimeIndex (and columns 'a','b','c')
+              'dt' Series/DataFrame with a daily DatetimeIndex (and columns 'a','b','c'), 'ix' the index described by `ix`
+    ix      : (optional) {'type': 'int' | 'dt', 'base': b, 'pattern': [steps >= 0]}: labels b, b+p0, b+p0+p1, ... (pattern repeats; a 0 step
+              repeats the label); 'dt' counts days from 2000-01-03
+    colnames: (optional) column labels of the 'dt' / 'ix' frames (unsorted, prefixes of one another, duplicated, integers)
+    axis0   : (optional) pass axis=0 and limit positionally
 
 Oracle: a scalar NaN-run walker per column over (original position, cells) rows, written from the statement; it never
 calls pandas fill functions. Every kind is compared cell by cell with the model (NaN positions exactly, other cells
@@ -25,11 +30,20 @@ from pv.codec import D0, mkdt
 
 ASSUMPTIONS = [
     'cells are float64: NaN, finite floats (incl. -0.0, 1e300) and +-inf (inf is a value here: np.isnan / pandas treat it as present)',
-    'axis is not passed (axis=1 is swallowed by the loops decorator and the statement does not mention it, DESIGN section 4)',
+    'axis is not passed or passed as 0 (axis=1 is swallowed by the loops decorator and the statement does not mention it, DESIGN section 4)',
     'a numeric method is only combined with limit=None (fillna(value, limit=k) fills the first k NaN overall; DESIGN section 4: not treated as a defect)',
     "'ffill_na' / 'ffill_0' stand alone or first in a list (later in a list they read the last valid index of the ORIGINAL input; DESIGN section 4)",
     "'ffill_na' / 'ffill_0' on a column without any valid observation: the column may stay NaN or (ffill_0) become all 0 - the statement does not say",
-    'pandas inputs have a strictly increasing unique index: the default RangeIndex (from 0) or a daily DatetimeIndex; frames have unique column labels',
+    'pandas inputs have a non-decreasing index: the default RangeIndex, a daily DatetimeIndex, integer labels not starting at 0, dates with gaps, '
+    'and (see K5/K6 for the two exceptions) repeated integer / date labels; column labels may be unsorted, prefixes of one another, duplicated or integers. '
+    'Decreasing / unsorted indexes are not generated (ffill_na/ffill_0 and edge compare labels; a time series is ordered)',
+    'identity of the result is not asserted: df_fillna returns the argument itself for method None / [] (documented) and for ffill_na / ffill_0 on a series '
+    'without a valid observation; only "values as specified, argument unchanged by the call" is demanded (no-op inputs carry the labels no_nan / noop_with_method)',
+    'CANDIDATE DEFECT excluded by construction (K5): nona(x, edge=-1) on a pandas object whose integer index does not start at 0 slices by position with a label '
+    '(_df_slice: df[lb:ub]) and returns the wrong rows; edge=-1 is generated for RangeIndex / DatetimeIndex objects only',
+    'CANDIDATE DEFECT excluded by construction (K6): with repeated index labels ffill_na / ffill_0 (res.index > last_valid) and nona(edge=+-1) (label slice) treat the rows '
+    'sharing the boundary label as one; tail fills and edge are generated with unique labels only',
+    'zero-COLUMN frames are not generated (the statement speaks of frames of any length; ffill_0 and nona() raise on an n x 0 array)',
     'on frames every fill works column by column; rows are dropped only when the whole row is NaN',
     'interpolation methods, pad/backfill spellings, date methods and list/dict containers of timeseries are outside the statement and not generated',
     'nona(): value is the default NaN; the edge option (docstring: 1 = cut only the latest all-NaN rows, -1 = only the historic ones) is checked on pandas inputs',
@@ -39,7 +53,7 @@ ASSUMPTIONS = [
 ]
 
 # the known-defect classes the generators avoid; remove a name once /repo carries the fix and the class is searched again
-EXCLUDED = {'K4'}
+EXCLUDED = {'K4', 'K5', 'K6'}
 
 NAN = float('nan')
 FILLS = ('ffill', 'bfill')
@@ -58,6 +72,24 @@ def _cell(v):
     if v == '-inf':
         return float('-inf')
     return float(v)
+
+
+def _expand(c):
+    if isinstance(c, dict):
+        out = []
+        for ln, v in c['rle']:
+            if v is None:
+                out.extend([NAN] * ln)
+            else:
+                v = _cell(v)
+                out.extend([v + i for i in range(ln)])
+        return out
+    return [_cell(v) for v in c]
+
+
+def _spec_cols(spec):
+    cols = [_expand(c) for c in spec['cols']]
+    return cols[:1] if spec['dim'] == 1 else cols
 
 
 def _isnan(x):
@@ -147,10 +179,7 @@ def _model(cols, methods, limit, zero_allnan=False):
 
 
 def _flags(spec):
-    cols = [[_cell(v) for v in c] for c in spec['cols']]
-    if spec['dim'] == 1:
-        cols = cols[:1]
-    _, _, flags = _model(cols, spec['methods'], spec['limit'])
+    _, _, flags = _model(_spec_cols(spec), spec['methods'], spec['limit'])
     return flags
 
 
@@ -163,7 +192,7 @@ def _k2(spec):
 
 
 def _k2_fn(spec):
-    return spec['dim'] == 2 and len(spec['cols'][0]) == 0 and bool(set(spec['kinds']) & {'range', 'dt'})
+    return spec['dim'] == 2 and len(_spec_cols(spec)[0]) == 0 and bool(set(spec['kinds']) & {'range', 'dt', 'ix'})
 
 
 def _k3(spec):
@@ -177,6 +206,10 @@ KNOWN = {
     'tail_fill_list_on_frame_reapplies_list': lambda spec: 'methods' in spec and _k3(spec),
     # sub-check nona_fn
     'nona_edge_ignored_on_array': lambda spec: 'edge' in spec and spec['edge'] is not None and 'arr' in spec['kinds'],
+    'nona_edge_minus1_positional_on_int_index': lambda spec: spec.get('edge') == -1 and 'ix' in spec['kinds'] and spec['ix']['type'] == 'int',
+    # both
+    'boundary_label_repeated': lambda spec: 'ix' in spec['kinds'] and _ix_dup(spec) and (
+        spec.get('edge') is not None or any(m in TAILS for m in spec.get('methods', ()))),
 }
 
 
@@ -198,6 +231,12 @@ KNOWN_SPECS = {
     'nona_edge_ignored_on_array': (
         'nona_fn', dict(cols=[[1.0, None, 2.0, 3.0]], dim=1, edge=1, bare=False, kinds=_ALL),
         'nona(np.array([1,nan,2,3]), edge=1) drops the interior NaN (docstring example asserts it is kept): edge is ignored for ndarrays'),
+    'nona_edge_minus1_positional_on_int_index': (
+        'nona_fn', dict(cols=[[None, 1.0, None, 2.0, None]], dim=1, edge=-1, bare=False, kinds=['ix'], ix=dict(type='int', base=10, pattern=[1])),
+        'nona(pd.Series([nan,1,nan,2,nan], [10,11,12,13,14]), edge=-1) is empty (expected the rows 11..14): _df_slice does df[11:None], a positional slice'),
+    'boundary_label_repeated': (
+        'fillna', dict(cols=[[1.0, 2.0, None]], dim=1, methods=['ffill_na'], bare=True, limit=None, kinds=['ix'], ix=dict(type='dt', base=0, pattern=[1, 0])),
+        "df_fillna(pd.Series([1,2,nan], [d0,d1,d1]), 'ffill_na') fills the last row with 2 (it lies after the last valid observation): res.index > last_valid compares labels"),
 }
 
 
@@ -216,9 +255,31 @@ def _repair(spec):
 
 # ----------------------------------------------------------------------------- builders / observers
 
-def _build(cols, dim, kind):
+def _ix_values(ix, n):
+    pat = ix['pattern']
+    out, cur = [], ix['base']
+    for i in range(n):
+        out.append(cur)
+        cur += pat[i % len(pat)]
+    return out
+
+
+def _ix_dup(spec):
+    n = len(_spec_cols(spec)[0])
+    v = _ix_values(spec['ix'], n)
+    return len(set(v)) < len(v)
+
+
+def _colnames(spec, kind, ncols):
+    if kind == 'range':
+        return None
+    return list(spec.get('colnames') or COLNAMES)[:ncols]
+
+
+def _build(cols, dim, kind, spec=None):
     import numpy as np
     import pandas as pd
+    spec = spec or {}
     n = len(cols[0])
     if dim == 1:
         a = np.array(cols[0], dtype='float64')
@@ -228,15 +289,25 @@ def _build(cols, dim, kind):
             a[:, j] = c
     if kind == 'arr':
         return a
-    index = None if kind == 'range' else pd.DatetimeIndex([mkdt(D0 + i) for i in range(n)])
+    if kind == 'range':
+        index = None
+    elif kind == 'dt' or spec['ix']['type'] == 'dt':
+        index = pd.DatetimeIndex(_labels(kind, n, spec))
+    else:
+        index = pd.Index(_labels(kind, n, spec), dtype='int64')
     if dim == 1:
         return pd.Series(a, index=index, dtype='float64')
-    return pd.DataFrame(a, index=index, columns=None if kind == 'range' else COLNAMES[:len(cols)])
+    return pd.DataFrame(a, index=index, columns=_colnames(spec, kind, len(cols)))
 
 
-def _labels(kind, n):
+def _labels(kind, n, spec=None):
     import pandas as pd
-    return list(range(n)) if kind == 'range' else [pd.Timestamp(mkdt(D0 + i)) for i in range(n)]
+    if kind == 'range':
+        return list(range(n))
+    if kind == 'dt':
+        return [pd.Timestamp(mkdt(D0 + i)) for i in range(n)]
+    v = _ix_values(spec['ix'], n)
+    return v if spec['ix']['type'] == 'int' else [pd.Timestamp(mkdt(D0 + i)) for i in v]
 
 
 def _snap(x):
@@ -271,7 +342,7 @@ def _diff(got, exp):
     return None
 
 
-def _check_object(what, x, kind, res, dim, ncols, variants, n):
+def _check_object(what, x, kind, res, dim, ncols, variants, n, spec=None):
     """res = result for the object x of `kind`; variants = acceptable (pos, cols) model results"""
     import numpy as np
     import pandas as pd
@@ -287,7 +358,7 @@ def _check_object(what, x, kind, res, dim, ncols, variants, n):
         raise Violation('%s: %s; result %s, reference %s' % (what, diffs[0], short(got, 260), short(variants[0][1], 260)))
     pos = variants[[d is None for d in diffs].index(True)][0]
     if kind != 'arr':
-        lab = _labels(kind, n)
+        lab = _labels(kind, n, spec)
         exp_index = [lab[p] for p in pos]
         check(list(res.index) == exp_index, '%s: surviving rows carry index %s instead of their own labels %s', what, list(res.index), exp_index)
         if dim == 2:
@@ -300,7 +371,9 @@ def _what(fname, x, args):
     if isinstance(x, np.ndarray):
         xs = 'np.array(%s)' % short(x.tolist(), 200) if x.size else 'np.zeros(%s)' % (x.shape,)
     else:
-        xs = '%s(%s, index=%s)' % (type(x).__name__, short(x.values.tolist(), 200) if x.size else 'np.zeros(%s)' % (x.shape,), type(x.index).__name__)
+        ix = type(x.index).__name__ if type(x.index).__name__ == 'RangeIndex' else '[%s]' % short(', '.join(str(i)[:10] for i in x.index), 120)
+        xs = '%s(%s, index=%s%s)' % (type(x).__name__, short(x.values.tolist(), 200) if x.size else 'np.zeros(%s)' % (x.shape,), ix,
+                                     ', columns=%s' % list(x.columns) if hasattr(x, 'columns') else '')
     return '%s(%s, %s)' % (fname, xs, args)
 
 
@@ -318,14 +391,20 @@ def _runs(col):
     return out
 
 
+def _nan_run_lengths(cols):
+    return sorted(set(l for c in cols for isn, l in _runs(c) if isn))
+
+
 def _pattern_classes(cols, dim):
     cls = []
     n = len(cols[0])
     if n == 0:
-        return ['empty'], dict(maxrun=0, trailing=False, allnan_row=False)
+        return ['empty'], dict(maxrun=0, trailing=False, allnan_row=False, trailing_run=0)
     if all(_isnan(v) for c in cols for v in c):
         cls.append('all_nan')
-    maxrun, trailing = 0, False
+    if not any(_isnan(v) for c in cols for v in c):
+        cls.append('no_nan')                                  # fingerprint: nothing to do
+    maxrun, trailing, trailing_run = 0, False, 0
     for c in cols:
         r = _runs(c)
         nanruns = [l for isn, l in r if isn]
@@ -336,15 +415,55 @@ def _pattern_classes(cols, dim):
         if r[-1][0] and anyvalid:
             cls.append('trailing_run')
             trailing = True
+            trailing_run = max(trailing_run, r[-1][1])
         if any(isn for isn, _ in r[1:-1]):
             cls.append('interior_run')
+            if not r[0][0] and not r[-1][0]:
+                cls.append('ends_valid_interior_nan')         # fingerprint: first and last cell valid, yet work to do
+        if not anyvalid and len(cols) > 1:
+            cls.append('allnan_column_in_frame')
+        if any(v == 0 for v in c):
+            cls.append('zero_cell')
     allnan_row = any(all(_isnan(c[i]) for c in cols) for i in range(n))
     if dim == 2:
         if allnan_row:
             cls.append('allnan_row_2d')
         if any(0 < sum(_isnan(c[i]) for c in cols) < len(cols) for i in range(n)):
             cls.append('partial_nan_row_2d')
-    return sorted(set(cls)), dict(maxrun=maxrun, trailing=trailing, allnan_row=allnan_row)
+    if n == 1:
+        cls.append('rows=1')
+    if n >= 64:
+        cls.append('rows>=64')
+    if n in (64, 65, 100, 128):
+        cls.append('rows=64|65|100|128')
+    if n >= 200:
+        cls.append('rows>=200')
+    if maxrun >= 32:
+        cls.append('nan_run>=32')
+    return sorted(set(cls)), dict(maxrun=maxrun, trailing=trailing, allnan_row=allnan_row, trailing_run=trailing_run)
+
+
+def _object_classes(spec, dim):
+    cls = []
+    if 'ix' in spec['kinds']:
+        n = len(_spec_cols(spec)[0])
+        v = _ix_values(spec['ix'], n)
+        dup = len(set(v)) < len(v)
+        cls.append('ix=%s_%s' % (spec['ix']['type'], 'dup' if dup else 'unique'))
+        if dup:
+            cls.append('ix_duplicate_labels')
+    names = spec.get('colnames')
+    if dim == 2 and names and set(spec['kinds']) & {'dt', 'ix'}:
+        names = names[:len(spec['cols'])]
+        if len(set(map(str, names))) < len(names) or len(set(names)) < len(names):
+            cls.append('cols_duplicated')
+        if all(isinstance(c, int) for c in names):
+            cls.append('cols_int')
+        elif any(a != b and str(a) in str(b) for a in names for b in names):
+            cls.append('cols_prefix')
+        if [str(c) for c in names] != sorted(str(c) for c in names):
+            cls.append('cols_unsorted')
+    return cls
 
 
 # ----------------------------------------------------------------------------- sub-check fillna
@@ -353,9 +472,7 @@ def run_fillna(spec):
     import numpy as np
     from pyg_base import df_fillna
     dim, methods, limit = spec['dim'], spec['methods'], spec['limit']
-    cols = [[_cell(v) for v in c] for c in spec['cols']]
-    if dim == 1:
-        cols = cols[:1]
+    cols = _spec_cols(spec)
     ncols = len(cols)
     n = len(cols[0])
     if any(len(c) != n for c in cols):
@@ -369,15 +486,22 @@ def run_fillna(spec):
         method = methods[0] if methods else None
     else:
         method = list(methods)
-    args = '%r, limit=%r' % (method, limit)
+    axis0 = bool(spec.get('axis0'))
+    args = ('%r, 0, %r' if axis0 else '%r, limit=%r') % (method, limit)
     results = {}
+    aliased = False
     for kind in spec['kinds']:
-        x = _build(cols, dim, kind)
+        x = _build(cols, dim, kind, spec)
         before = _snap(x)
         what = _what('df_fillna', x, args)
-        res = call(what, df_fillna, x, method, limit=limit)
-        results[kind] = _check_object(what, x, kind, res, dim, ncols, variants, n)
-        check(_snap(x) == before, '%s modified its argument: now %s', what, x.tolist() if isinstance(x, np.ndarray) else x.values.tolist())
+        if axis0:
+            res = call(what, df_fillna, x, method, 0, limit)
+        else:
+            res = call(what, df_fillna, x, method, limit=limit)
+        results[kind] = _check_object(what, x, kind, res, dim, ncols, variants, n, spec)
+        check(_snap(x) == before, '%s modified its argument: now %s', what, short(x.tolist() if isinstance(x, np.ndarray) else x.values.tolist(), 300))
+        if res is x and methods:
+            aliased = True
     if 'arr' in results:
         for kind in results:
             if kind != 'arr':
@@ -386,23 +510,48 @@ def run_fillna(spec):
 
     # ---- classes / non-trivial rule
     pcls, info = _pattern_classes(cols, dim)
-    cls = ['dim=%i' % dim, 'limit=%s' % limit, 'nmethods=%i' % min(len(methods), 3)] + pcls
+    cls = ['dim=%i' % dim, 'limit=%s' % (limit if limit is None or limit <= 3 else '>3'), 'nmethods=%i' % min(len(methods), 3)] + pcls
+    cls += _object_classes(spec, dim)
     if dim == 2:
         cls.append('ncols=%i' % ncols)
     for m in methods:
         cls.append('m=const' if _is_num(m) else 'm=' + m)
+        if _is_num(m) and m == 0:
+            cls.append('m=const_zero')                        # falsy method
     fills = [m for m in methods if m in FILLS or m in TAILS]
     run_gt_limit = limit is not None and bool(fills) and info['maxrun'] > limit
     tail = bool(methods) and methods[0] in TAILS and info['trailing']
     rowdrop = dim == 2 and info['allnan_row'] and any(m in DROPS for m in methods)
     if run_gt_limit:
         cls.append('run_longer_than_limit')
+    if limit is not None and fills:
+        runs = _nan_run_lengths(cols)
+        if limit in runs:
+            cls.append('limit==run_length')
+        if limit + 1 in runs:
+            cls.append('limit==run_length-1')
+        if limit >= 32 and info['maxrun'] > limit:
+            cls.append('limit>=32_and_longer_run')
+    if limit is not None and any(m in DROPS for m in methods):
+        cls.append('limit_with_drop')                         # cooperating parameters
     if tail:
         cls.append('tail_fill_with_trailing_run')
+        if limit is not None and info['trailing_run'] > limit:
+            cls.append('tail_fill_trailing_run>limit')
+    if methods and methods[0] in TAILS and 'ends_valid_interior_nan' in pcls:
+        cls.append('tail_fill_ends_valid')
     if rowdrop:
         cls.append('allnan_row_dropped_2d')
     if len(pos) < n:
         cls.append('rows_dropped')
+    if methods and len(pos) == 0 and n > 0 and methods[-1] not in DROPS:
+        cls.append('emptied_before_last_method')              # degenerate shape in the middle of the list
+    if axis0:
+        cls.append('axis0_positional')
+    if aliased:
+        cls.append('result_is_argument')                      # observed only: no-op tail fill returns the operand, as method None does by design
+    if methods and exp == cols and len(pos) == n:
+        cls.append('noop_with_method')
     if spec['kinds'] == ['dt']:
         cls.append('dt_only(K1 class)')
     elif any(isinstance(f, tuple) and f[0] == 'K1' for f in flags):
@@ -423,9 +572,7 @@ def run_nona(spec):
     import numpy as np
     from pyg_base import nona
     dim, edge = spec['dim'], spec['edge']
-    cols = [[_cell(v) for v in c] for c in spec['cols']]
-    if dim == 1:
-        cols = cols[:1]
+    cols = _spec_cols(spec)
     ncols = len(cols)
     n = len(cols[0])
     rowvalid = [any(not _isnan(c[i]) for c in cols) for i in range(n)]
@@ -443,7 +590,7 @@ def run_nona(spec):
     variants = [(keep, exp)]
     results = {}
     for kind in spec['kinds']:
-        x = _build(cols, dim, kind)
+        x = _build(cols, dim, kind, spec)
         before = _snap(x)
         if edge is None and spec.get('bare'):
             what = _what('nona', x, '')
@@ -451,29 +598,38 @@ def run_nona(spec):
         else:
             what = _what('nona', x, 'edge=%r' % (edge,))
             res = call(what, nona, x, edge=edge)
-        results[kind] = _check_object(what, x, kind, res, dim, ncols, variants, n)
-        check(_snap(x) == before, '%s modified its argument: now %s', what, x.tolist() if isinstance(x, np.ndarray) else x.values.tolist())
+        results[kind] = _check_object(what, x, kind, res, dim, ncols, variants, n, spec)
+        check(_snap(x) == before, '%s modified its argument: now %s', what, short(x.tolist() if isinstance(x, np.ndarray) else x.values.tolist(), 300))
     if 'arr' in results:
         for kind in results:
             if kind != 'arr':
                 d = _diff(results['arr'], results[kind])
                 check(d is None, 'nona(edge=%s): array result differs from the .values of the %s-indexed pandas result: %s', edge, kind, d)
     pcls, info = _pattern_classes(cols, dim)
-    cls = ['dim=%i' % dim, 'edge=%s' % edge] + pcls
+    cls = ['dim=%i' % dim, 'edge=%s' % edge] + pcls + _object_classes(spec, dim)
     edge_keeps_interior = edge is not None and len(keep) > sum(rowvalid)
     if edge_keeps_interior:
         cls.append('edge_keeps_allnan_rows')
     if len(keep) < n:
         cls.append('rows_dropped')
+    if len(keep) == n and n:
+        cls.append('nothing_to_drop')                         # no-op: still a new object
     nt = info['allnan_row'] or n == 0
     return dict(nt=bool(nt), cls=cls)
 
 
 # ----------------------------------------------------------------------------- generators
 
-_VAL = st.sampled_from([float(i) for i in range(1, 10)] * 2 + [0.0, -0.0, -1.5, 2.5, 1e300, 'inf', '-inf'])
+_VAL = st.sampled_from([float(i) for i in range(1, 10)] * 2 + [0.0, -0.0, -1.5, 2.5, 1e300, 5e-324, 9007199254740993.0, 'inf', '-inf'])
 _CONST = st.sampled_from([0, 1, -2, 0.0, 2.5, 7.0])
 _STEP = st.sampled_from(['ffill', 'bfill', 'nona', 'fnna'])
+LONG_SIZES = [64, 65, 100, 128, 200, 257]
+_LONG_RUNS = [1, 2, 3, 5, 16, 31, 32, 33, 63, 64, 65, 100, 130]
+_COLNAMES = [None, None, ['c', 'a', 'b'], ['a', 'ab', 'abc'], ['b', 'ab', 'a'], ['x', 'x', 'y'], [2, 0, 1], [0, 0, 1]]
+_IX = [dict(type='int', base=10, pattern=[1]), dict(type='int', base=-5, pattern=[1, 3]), dict(type='int', base=1, pattern=[2]),
+       dict(type='dt', base=2, pattern=[1, 3, 7]), dict(type='dt', base=0, pattern=[31]),
+       dict(type='int', base=5, pattern=[0, 2]), dict(type='int', base=0, pattern=[1, 0, 0]), dict(type='int', base=7, pattern=[0]),
+       dict(type='dt', base=0, pattern=[1, 0]), dict(type='dt', base=3, pattern=[0, 0, 1])]
 
 
 @st.composite
@@ -492,8 +648,52 @@ def _vector(draw, max_runs):
     return out[:20]
 
 
+def _cut_rle(rle, n, pad_nan):
+    out, total = [], 0
+    for ln, v in rle:
+        if total >= n:
+            break
+        ln = min(ln, n - total)
+        if ln:
+            out.append([ln, v])
+            total += ln
+    if total < n:
+        out.append([n - total, None if pad_nan else 1.0])
+    return out
+
+
 @st.composite
-def _columns(draw, dim, max_runs):
+def _long_column(draw, n):
+    """run-length coded column of exactly n rows: alternating NaN / value runs with lengths around the powers of two"""
+    isn = draw(st.booleans())
+    lens = draw(st.lists(st.sampled_from(_LONG_RUNS), min_size=1, max_size=8))
+    starts = draw(st.lists(st.integers(1, 9), min_size=len(lens), max_size=len(lens)))
+    rle = []
+    for ln, v in zip(lens, starts):
+        rle.append([ln, None if isn else float(v)])
+        isn = not isn
+    return dict(rle=_cut_rle(rle, n, isn))
+
+
+@st.composite
+def _columns(draw, dim, max_runs, long=False):
+    if long:
+        n = draw(st.sampled_from(LONG_SIZES))
+        first = draw(_long_column(n))
+        cols = [first]
+        for _ in range(draw(st.integers(0, 2)) if dim == 2 else 0):
+            mode = draw(st.sampled_from(['same_mask', 'shifted', 'own', 'all_nan']))
+            if mode == 'same_mask':
+                c = dict(rle=[[ln, None if v is None else v + 10.0] for ln, v in first['rle']])
+            elif mode == 'shifted':
+                k = draw(st.sampled_from([1, 2, 31, 32]))
+                c = dict(rle=_cut_rle([[k, None if draw(st.booleans()) else 3.0]] + [list(r) for r in first['rle']], n, True))
+            elif mode == 'all_nan':
+                c = dict(rle=[[n, None]])
+            else:
+                c = draw(_long_column(n))
+            cols.append(c)
+        return cols
     first = draw(_vector(max_runs))
     if dim == 1:
         return [first]
@@ -511,15 +711,24 @@ def _columns(draw, dim, max_runs):
             if len(c) < n:
                 c = c + (draw(st.lists(_VAL, min_size=n - len(c), max_size=n - len(c))) if draw(st.booleans()) else [None] * (n - len(c)))
         cols.append(c)
+    if draw(st.integers(0, 3)) == 0:
+        cols = cols[::-1]                                     # the all-NaN / derived column also comes first
     return cols
+
+
+def _unique_ix(ix):
+    return dict(ix, pattern=[p or 1 for p in ix['pattern']])
 
 
 @st.composite
 def _fillna_case(draw, tier):
     max_runs = 5 if tier == 'quick' else 7
     dim = draw(st.sampled_from([1, 1, 2, 2, 2]))
-    cols = draw(_columns(dim, max_runs))
-    limit = draw(st.sampled_from([None, None, 1, 2, 3]))
+    long = draw(st.integers(0, 6)) == 0
+    cols = draw(_columns(dim, max_runs, long))
+    runs = _nan_run_lengths([_expand(c) for c in cols])
+    near = sorted(set(l + d for l in runs for d in (-1, 0, 1) if l + d >= 1))
+    limit = draw(st.sampled_from(([None, None, 1, 2] + near[-8:]) if long else ([None, None, None, 1, 2, 3] + near[:4] + near[-4:])))
     step = _STEP if limit is not None else st.one_of(_STEP, _STEP, _CONST)
     shape = draw(st.sampled_from(['single'] * 4 + ['list'] * 4 + ['tail_list'] * 2 + ['none']))
     bare = draw(st.booleans())
@@ -531,7 +740,16 @@ def _fillna_case(draw, tier):
         methods = draw(st.lists(step, min_size=2, max_size=3))
     else:
         methods = [draw(st.sampled_from(TAILS))] + draw(st.lists(step, min_size=1, max_size=2))
-    spec = dict(cols=cols, dim=dim, methods=methods, bare=bare, limit=limit, kinds=['arr', 'range', 'dt'])
+    ix = dict(draw(st.sampled_from(_IX)))
+    if 'K6' in EXCLUDED and any(m in TAILS for m in methods):
+        ix = _unique_ix(ix)
+    spec = dict(cols=cols, dim=dim, methods=methods, bare=bare, limit=limit, kinds=['arr', 'range', 'dt', 'ix'], ix=ix)
+    if dim == 2:
+        names = draw(st.sampled_from(_COLNAMES))
+        if names:
+            spec['colnames'] = names
+    if draw(st.integers(0, 3)) == 0:
+        spec['axis0'] = True
     return _repair(spec)
 
 
@@ -539,14 +757,25 @@ def _fillna_case(draw, tier):
 def _nona_case(draw, tier):
     max_runs = 5 if tier == 'quick' else 7
     dim = draw(st.sampled_from([1, 2, 2]))
-    cols = draw(_columns(dim, max_runs))
+    long = draw(st.integers(0, 6)) == 0
+    cols = draw(_columns(dim, max_runs, long))
     edge = draw(st.sampled_from([None, None, 1, -1]))
-    kinds = ['arr', 'range', 'dt']
+    ix = dict(draw(st.sampled_from(_IX)))
+    if edge is not None and 'K6' in EXCLUDED:
+        ix = _unique_ix(ix)
+    kinds = ['arr', 'range', 'dt', 'ix']
     if edge is not None and 'K4' in EXCLUDED:
-        kinds = ['range', 'dt']
-    if dim == 2 and not cols[0] and 'K2' in EXCLUDED:
+        kinds.remove('arr')
+    if edge == -1 and ix['type'] == 'int' and 'K5' in EXCLUDED:
+        kinds.remove('ix')
+    if dim == 2 and not _expand(cols[0]) and 'K2' in EXCLUDED:
         edge, kinds = None, ['arr']
-    return dict(cols=cols, dim=dim, edge=edge, bare=draw(st.booleans()), kinds=kinds)
+    spec = dict(cols=cols, dim=dim, edge=edge, bare=draw(st.booleans()), kinds=kinds, ix=ix)
+    if dim == 2:
+        names = draw(st.sampled_from(_COLNAMES))
+        if names:
+            spec['colnames'] = names
+    return spec
 
 
 # ----------------------------------------------------------------------------- exhaustive vectors (thorough tier)
@@ -584,20 +813,29 @@ def enum_vectors(tier):
 SUBS = [
     Sub('fillna', _fillna_case, run_fillna, quick=8000, thorough=15000,
         rule='vectors and 1-3 column frames from a NaN-run grammar (alternating NaN/value runs of length 0-4, <= 20 rows; further '
-             'columns share the mask, follow their own grammar or are all-NaN); method = None, one of ffill/bfill/constant/nona/fnna/ffill_na/ffill_0, '
-             'a list of 2-3 of ffill/bfill/constant/nona/fnna, or (vectors) ffill_na/ffill_0 followed by 1-2 of them; limit None/1/2/3; each case on the '
-             'ndarray, the RangeIndex and the DatetimeIndex Series/DataFrame. Oracle: NaN-run walker per column (fill iff a source lies within limit, '
-             'nothing else changes), all-NaN-row dropping with index labels, array == .values of pandas result, arguments bit-identical afterwards. '
-             'non-trivial = a NaN run longer than limit under a fill, or a trailing run under ffill_na/ffill_0, or an all-NaN row in a frame, or '
-             'empty / all-NaN input; distinct = distinct spec',
+             'columns share the mask, follow their own grammar or are all-NaN) and, one case in seven, LONG inputs of exactly 64/65/100/128/200/257 rows '
+             '(run-length coded, runs of 1..130 around the powers of two); method = None, one of ffill/bfill/constant/nona/fnna/ffill_na/ffill_0, '
+             'a list of 2-3 of ffill/bfill/constant/nona/fnna, or ffill_na/ffill_0 followed by 1-2 of them; limit None/1/2/3 or a NaN-run length -1/+0/+1; '
+             'each case on the ndarray, the RangeIndex object, the daily DatetimeIndex object and a fourth object with integer labels not starting at 0 / gapped '
+             'dates / repeated labels; frame columns also unsorted, prefix-named, duplicated, integers. Oracle: NaN-run walker per column (fill iff a source '
+             'lies within limit, nothing else changes), all-NaN-row dropping with index labels, array == .values of pandas result, arguments bit-identical '
+             'afterwards. non-trivial = a NaN run longer than limit under a fill, or a trailing run under '
+             'ffill_na/ffill_0, or an all-NaN row in a frame, or empty / all-NaN input; distinct = distinct spec',
         floor=0.3, class_floors={'run_longer_than_limit': 0.06, 'tail_fill_with_trailing_run': 0.02, 'allnan_row_2d': 0.1, 'empty': 0.02,
                                  'all_nan': 0.02, 'rows_dropped': 0.08, 'm=ffill_0': 0.03, 'm=ffill_na': 0.03, 'm=const': 0.08,
-                                 'interior_run': 0.2, 'partial_nan_row_2d': 0.08}),
+                                 'interior_run': 0.2, 'partial_nan_row_2d': 0.08,
+                                 'rows>=64': 0.08, 'rows=64|65|100|128': 0.04, 'rows>=200': 0.02, 'nan_run>=32': 0.04, 'limit>=32_and_longer_run': 0.004,
+                                 'limit==run_length': 0.04, 'limit==run_length-1': 0.03, 'ix_duplicate_labels': 0.1, 'ix=int_unique': 0.15,
+                                 'cols_unsorted': 0.04, 'cols_duplicated': 0.03, 'cols_prefix': 0.03, 'cols_int': 0.03, 'no_nan': 0.03,
+                                 'ends_valid_interior_nan': 0.05, 'tail_fill_ends_valid': 0.005, 'm=const_zero': 0.02, 'zero_cell': 0.05,
+                                 'limit_with_drop': 0.08, 'tail_fill_trailing_run>limit': 0.005, 'axis0_positional': 0.1, 'noop_with_method': 0.05,
+                                 'allnan_column_in_frame': 0.05, 'emptied_before_last_method': 0.001, 'rows=1': 0.02}),
     Sub('nona_fn', _nona_case, run_nona, quick=2000, thorough=4000,
-        rule='the same vectors / frames through nona(x) (edge None on ndarray + both pandas objects; edge 1 / -1 on the pandas objects). Oracle: exactly '
-             'the all-NaN rows go (edge 1: only those after the last valid row, edge -1: only those before the first), labels kept, array == .values, '
-             'argument unchanged. non-trivial = the input has an all-NaN row or is empty',
-        floor=0.3, class_floors={'edge_keeps_allnan_rows': 0.05, 'allnan_row_2d': 0.1, 'rows_dropped': 0.3}),
+        rule='the same vectors / frames / index and column variants through nona(x) (edge None on every object; edge 1 / -1 on the pandas objects with unique '
+             'labels). Oracle: exactly the all-NaN rows go (edge 1: only those after the last valid row, edge -1: only those before the first), labels kept, '
+             'array == .values, argument unchanged. non-trivial = the input has an all-NaN row or is empty',
+        floor=0.3, class_floors={'edge_keeps_allnan_rows': 0.05, 'allnan_row_2d': 0.1, 'rows_dropped': 0.3, 'rows>=64': 0.08, 'ix_duplicate_labels': 0.1,
+                                 'ix=int_unique': 0.1, 'cols_duplicated': 0.03, 'nothing_to_drop': 0.03}),
     EnumSub('vec_enum', enum_vectors, run_fillna, thorough_only=True, chunks=64,
             rule='every NaN pattern of every vector length 0-%i (position-coded values) x every program: 7 single methods, 25 ordered pairs of '
                  'ffill/bfill/constant/nona/fnna, 10 pairs headed by ffill_na/ffill_0, x limit None/1/2/3 (constant only with None); same oracle as fillna'
